@@ -229,6 +229,12 @@ func c13Char(c *Ctx, s *C13Spec) {
 	case "ok":
 		if res.Kind == "error" {
 			legit, _ := candidatesAllFail(m, res, s.MaxTrials)
+			if !legit && len(res.Tape.Draws) >= s.MaxTrials && len(res.Tape.Draws) != s.MaxTrials*cfg.Length {
+				// the code did draw (at least once per permitted attempt) but not Length draws per attempt:
+				// candidates cannot be reconstructed from the tape, the give-up cannot be judged
+				legit = true
+				c.Count("exhaustion_not_reconstructible", 1)
+			}
 			if legit {
 				c.Probe("legitimate_exhaustion_on_random_stream", 1)
 			} else {
@@ -420,6 +426,13 @@ func c13Budget(c *Ctx, s *C13Spec) {
 	}
 	if allFail.Kind == "error" && allFail.Pw != nil {
 		c.Violate("password-with-error", "", "%s: an error together with a password", desc)
+		return
+	}
+	// The next scenario needs to know where candidate number MaxTrials starts in the stream. That is
+	// only known if every failed attempt above consumed exactly Length draws (an implementation may
+	// legitimately abandon a hopeless candidate early, then the stream is not aligned to candidates).
+	if !(allFail.Kind == "error" && len(allFail.Tape.Draws) == s.MaxTrials*L) {
+		c.Count("budget_stream_not_aligned_to_candidates", 1)
 		return
 	}
 	// candidate number MaxTrials is the first good one
